@@ -82,6 +82,14 @@ def evaluate(case):
             res = dmaker.evaluate(dm)
     except Exception as e:  # noqa: BLE001
         return {"error": I.exc_code(e), "exc": repr(e)[:300]}
+    import zlib
+    if zlib.crc32(repr(case.get("matrix")).encode()) & 1 and hasattr(res, "untied_rank_"):
+        # half of the results have their other views read first (ties, untied ranks, series, text)
+        try:
+            _ = (res.has_ties_, res.ties_, res.untied_rank_, res.to_series(untied=True), res.to_series(), repr(res),
+                 res.shape, res == res)
+        except Exception as e:  # noqa: BLE001
+            return {"error": I.exc_code(e), "exc": "reading the views of the result: " + repr(e)[:300]}
     extra = {}
     for k in res.e_:
         v = res.e_[k]
